@@ -485,7 +485,8 @@ func ReadPem(pemBytes []byte) (PemFileContent, error) {
 			}
 			pemFileContent.Certificate = cert
 
-		case "CERTIFICATE REQUEST":
+		//"NEW CERTIFICATE REQUEST" is the older label of the same structure (RFC 7468)
+		case "CERTIFICATE REQUEST", "NEW CERTIFICATE REQUEST":
 			req := &CertificateRequest{}
 			_, err = asn1.Unmarshal(p.Bytes, req)
 			if err != nil {
